@@ -22,6 +22,11 @@ A_SLOT = "alpenglow::types::slot::Slot::"
 
 
 def check(run, prefix="O7"):
+    # "skipped as a consequence of a finalization" / "finalized": the tracker learns these only from the FinalizationEvent
+    from . import C08
+    C08.ob_status_reporting(run, prefix + ".10")
+    ob_skip_chain(run, prefix + ".11")
+    D.ob_watermark_comparisons(run, "O7.9", ["consensus::pool"], 10, "pairs for the slot at the root are still live: discarding them loses an announcement, keeping older ones announces a pair again")
     D.ob_state_mutations(run, "O7.8", ['consensus::pool::parent_ready_tracker::ParentReadyTracker', 'consensus::pool::parent_ready_tracker::parent_ready_state::ParentReadyState'], 'ready/skip/notar-fallback marks are monotone: removing or overwriting them loses or repeats ParentReady announcements')
     prog = run.program("lib")
     P = prefix
@@ -259,3 +264,35 @@ def _is_result_vec(b, push_call):
                     if pl and pl["l"] == src:
                         return True
     return False
+
+
+def ob_skip_chain(run, oid):
+    """mark_skipped's backward scan: a slot hands its own ready parents on to the next window only if the slot itself is skip-certified"""
+    prog = run.program("lib")
+    o = run.ob(oid, "mark_skipped: the ready parents a slot already holds are passed on only when that same slot is skip-certified",
+               "a slot holding a block (not skip-certified) cuts the skip chain: passing its older ready parents on lets a later window build on a block from before it, "
+               "bypassing a notarized or finalized block", floor=2)
+    b = prog.body(PRT + "::mark_skipped")
+    if b is None:
+        o.missing("ParentReadyTracker::mark_skipped")
+        return
+    rb = [c for c in b.calls() if c.name.endswith("ParentReadyState::ready_block_ids")]
+    if not rb:
+        o.missing("ParentReadyState::ready_block_ids in mark_skipped")
+    for c, key in K.ordinal_keys(rb, lambda c: "mark_skipped|ready_block_ids"):
+        st = b.operand_term(c.args[0])
+        g = [a for a in G.guard_atoms(b, c.bb, prog) if a[0] == "bool" and a[2] is True and K.mentions_call(a[1][0], "is_skip_certified")]
+        same = [a for a in g if _strip(K.peel(a[1][0])[2][0] if K.peel(a[1][0])[0] == "call" else None) == _strip(st)]
+        o.check(bool(same), key + "|behind-skip-certified", "ready_block_ids(state(s)) is read only after is_skip_certified(state(s)) held for the same slot s", c.span,
+                {"guards": G.atoms_show(g)})
+    # and what is read is what is handed on
+    ex = [c for c in b.calls() if c.name.rsplit("::", 1)[-1] == "extend" and K.mentions_call(b.operand_term(c.args[1]), "ready_block_ids")]
+    o.check(len(ex) == 1, "mark_skipped|extends-candidates", "those parents are added to the candidate list", ex[0].span if ex else b.span)
+
+
+def _strip(t):
+    if isinstance(t, tuple):
+        if t and t[0] == "call" and len(t) > 3:
+            return ("call", t[1], tuple(_strip(a) for a in t[2]))
+        return tuple(_strip(a) for a in t)
+    return t
